@@ -162,10 +162,11 @@ Letters(t) == Flat([i \in DOMAIN t |->
                  ELSE IF t[i] = "semi" THEN <<"ltr">> ELSE <<t[i]>>])
 
 StrDiag(e) ==
+  IF e.enc # "ok" \/ e.parse # "ok" THEN {} ELSE
   {"diag.lost." \o c : c \in {c \in Cls : CountOf(e.s, c) > CountOf(e.got, c)}}
   \cup {"diag.gained." \o c : c \in {c \in Cls : CountOf(e.s, c) < CountOf(e.got, c)}}
   \cup (IF e.depth = 0 /\ e.enc = "ok" /\ ~("UNCLASSIFIED:text" \in Rng(e.text))
-        THEN LET r == XmlRead(e.text) IN
+        THEN LET r == IF e.where = "name" THEN AttrRead(e.text) ELSE XmlRead(e.text) IN
              IF r.ok /\ Letters(r.s) = Letters(e.s)
              THEN {"diag.ParserDeviatesFromXml10"}
              ELSE {"diag.EncoderTextDoesNotDenoteSource"}
@@ -194,8 +195,9 @@ Fails(st, e) ==
 (*   W.nullOk     TRUE: a NULL entry in an array of any type parses;       *)
 (*                FALSE (pinned tree): unpack_numeric / unpack_boolean /   *)
 (*                unpack_datetime / unpack_char16 assert data is not None  *)
-(*   W.char16Kb   TRUE: a char16 keybinding comes back as Char16;          *)
-(*                FALSE (pinned tree): as str, i.e. CIM type string        *)
+(*   W.char16Kb   TRUE: a char16 value comes back as Char16 (so a char16   *)
+(*                keybinding keeps its CIM type);  FALSE (pinned tree):    *)
+(*                as str, i.e. a keybinding becomes CIM type string        *)
 (*   W.boolPval   TRUE: a boolean parameter value is parsed;  FALSE        *)
 (*                (pinned tree): typed by cimvalue() = bool(text), so      *)
 (*                FALSE arrives as TRUE                                    *)
@@ -223,9 +225,9 @@ WireElem(el, mode, W) ==
                    THEN "b:T"
                    ELSE el.val[k]]
       newvt == [k \in DOMAIN el.vt |->
-                   IF el.vt[k] = "char16" THEN "str" ELSE el.vt[k]]
-  IN [n1 EXCEPT !.cls = newcls, !.val = newval,
-                !.vt = IF W.char16Kb /\ el.et = "kb" THEN el.vt ELSE newvt,
+                   IF el.vt[k] = "char16" /\ (~W.char16Kb \/ el.et = "pval")
+                   THEN "str" ELSE el.vt[k]]
+  IN [n1 EXCEPT !.cls = newcls, !.val = newval, !.vt = newvt,
                 !.type = IF el.et = "kb" /\ el.type = "char16" /\ ~W.char16Kb
                          THEN "string" ELSE el.type]
 
@@ -257,7 +259,9 @@ WireEvent(els, mode, W) ==
 StrDrift(e) ==
   IF e.enc # "ok" \/ "UNCLASSIFIED:text" \in Rng(e.text) THEN {"encoder.no-text"}
   ELSE LET src == IF e.depth = 0 THEN e.s ELSE e.inner
-           same(V) == Letters(Enc(src, e.mode, V)) = Letters(e.text)
+           same(V) == Letters(IF e.depth = 0 /\ e.where = "name"
+                              THEN EncAttr(src, V) ELSE Enc(src, e.mode, V))
+                      = Letters(e.text)
        IN IF same(AsIs) THEN {}
           ELSE IF same(CrFixed) THEN {"encoder.is-the-CR-escaping-variant"}
           ELSE {"encoder.text-differs-from-both-variants"}
